@@ -12,9 +12,9 @@ import (
 
 func init() {
 	register(&propDef{
-		id: "C21",
+		id:      "C21",
 		explain: "Structural necessary conditions of 'an https request never travels over a plaintext connection and vice versa': (R1) in HostClient's single request path every path to the transport passes, unconditionally, the comparison of HostClient.IsTLS with the scheme of the request URI obtained through Request.URI() (which forces the lazy parse), taken on its 'equal' outcome - a mismatch returns an error before anything is sent; (R2) Client.Do picks the host-client map with the same boolean it stores as IsTLS in the HostClient it creates, and that boolean is true exactly under the isHTTPS test; unsupported schemes return an error; (R3) dialAddr returns, when asked for TLS and the dialled connection is not already TLS, only the result of tls.Client / the TLS handshake; dialHostHard passes HostClient.IsTLS to it; (R4) PipelineClient hands its IsTLS to every connection client it creates. Not decided: LBClient over user-supplied clients, TLS correctness itself.",
-		run: runC21,
+		run:     runC21,
 	})
 }
 
